@@ -17,11 +17,12 @@ Inductive reg :=
 | C1Re | C1Im            (* first complex source *)
 | C2Re | C2Im            (* second complex source *)
 | F1                     (* mpf argument (source for *_f, destination for smod/mod) *)
+| F2                     (* second mpf argument (destination r of the gmptools.c helpers mpf_*_si when r != f) *)
 | T (n : nat).           (* temporaries: thread-local cache slots and locals, by address *)
 
 Definition reg_eqb (a b : reg) : bool :=
   match a, b with
-  | RcRe, RcRe | RcIm, RcIm | C1Re, C1Re | C1Im, C1Im | C2Re, C2Re | C2Im, C2Im | F1, F1 => true
+  | RcRe, RcRe | RcIm, RcIm | C1Re, C1Re | C1Im, C1Im | C2Re, C2Re | C2Im, C2Im | F1, F1 | F2, F2 => true
   | T n, T m => Nat.eqb n m
   | _, _ => false
   end.
@@ -164,7 +165,7 @@ Qed.
 
 (* ---------------------------------------------------------------- specifications *)
 (* where the C arguments live (aliased arguments share registers) *)
-Record args := mkargs { a_rc : reg * reg; a_c1 : reg * reg; a_c2 : reg * reg; a_f : reg }.
+Record args := mkargs { a_rc : reg * reg; a_c1 : reg * reg; a_c2 : reg * reg; a_f : reg; a_h : reg }.
 
 Record spec := mkspec { pre : store -> Prop; outs : list (reg * (store -> R)) }.
 
@@ -180,7 +181,7 @@ Section Specs.
   Let rr := fst (a_rc a). Let ri := snd (a_rc a).
   Let xr := fst (a_c1 a). Let xi := snd (a_c1 a).
   Let yr := fst (a_c2 a). Let yi := snd (a_c2 a).
-  Let f := a_f a.
+  Let f := a_f a. Let h := a_h a.
   Definition cplx_spec (p : store -> Prop) (re im : store -> R) : spec :=
     mkspec p [(rr, re); (ri, im)].
   Definition nz1 : store -> Prop := fun s => s xr * s xr + s xi * s xi <> 0.
@@ -236,6 +237,13 @@ Section Specs.
   Definition spec_mpc_mod_eq := cplx_spec tt_pre (fun s => sqrt (s xr * s xr + s xi * s xi)) (fun _ => 0).
   Definition spec_mpc_rot_eq := spec_mpc_rot.
   Definition spec_mpc_flip_eq := spec_mpc_flip.
+  (* gmptools.c helpers: destination h (= f when aliased), source f, long argument i *)
+  Definition spec_mpf_add_si (i : Z) := mkspec tt_pre [(h, fun s => s f + IZR i)].
+  Definition spec_mpf_sub_si (i : Z) := mkspec tt_pre [(h, fun s => s f - IZR i)].
+  Definition spec_mpf_si_sub (i : Z) := mkspec tt_pre [(h, fun s => IZR i - s f)].
+  Definition spec_mpf_mul_si (i : Z) := mkspec tt_pre [(h, fun s => s f * IZR i)].
+  Definition spec_mpf_div_si (i : Z) := mkspec (fun _ => IZR i <> 0) [(h, fun s => s f / IZR i)].
+  Definition spec_mpf_si_div (i : Z) := mkspec (fun s => s f <> 0) [(h, fun s => IZR i / s f)].
 End Specs.
 
 (* ---------------------------------------------------------------- the fixed tactic *)
